@@ -72,6 +72,20 @@ func init() {
 				perm := rapid.Permutation(ops).Draw(t, "order")
 				ops = perm
 			}
+			// cancel some pending jobs of in-memory queues while the worker is still paused
+			var cancellable []int
+			for _, op := range ops {
+				if k := c.Cfg.Queues[op.Q]; k == "std" || k == "prio" {
+					cancellable = append(cancellable, op.It.N)
+				}
+			}
+			// (round robin only: with MaxLen/MinLen a cancelled head of a queue that ties with another one may or
+			// may not have been dropped, depending on a tie-break the property leaves open)
+			if c.Cfg.Strategy == 0 && len(cancellable) > 0 && rapid.IntRange(0, 2).Draw(t, "withcancel") == 0 {
+				for i := 0; i < rapid.IntRange(1, 3).Draw(t, "ncancel"); i++ {
+					ops = append(ops, Op{Op: "close", N: pick(t, "cancelwhich", cancellable)})
+				}
+			}
 			ops = append(ops, Op{Op: "resume"})
 			// further submissions at settled points (one gated job in flight, everything else quiet)
 			extra := rapid.IntRange(0, 4).Draw(t, "extra")
